@@ -318,12 +318,18 @@ func (c c19) Execute(h *core.History) *core.Outcome {
 		case "bind":
 			t1, _ := on.Observe(e.Name)
 			t2, _ := off.Observe(e.Name)
-			if a.Class != "value" || t1 != t2 {
-				st.Discarded = true // the harness could not even bind: not a property violation
-				st.Panic(fmt.Sprintf("bind %q: %s / %s / %s", e.Text, a.Class, t1, t2))
+			if a.Class != b.Class || t1 != t2 {
+				o.Viol = &core.Violation{Oracle: "register-modes-disagree", Event: i, Sig: "C19|modes|bind|" + e.Key + "|" + e.Val,
+					Detail: fmt.Sprintf("binding %q: registers on -> %s %s, registers off -> %s %s", e.Text, a.Class, t1, b.Class, t2)}
+			} else if a.Class != "value" {
+				st.Discarded = true // the name is already bound to something else (after shrinking): no attempt possible
+				st.Panic(fmt.Sprintf("bind %q: %s", e.Text, a.Class))
 			}
 			bound[e.Name] = t1
 			lits[e.Name] = strings.TrimPrefix(e.Text, e.Name+" = ")
+			if o.Viol != nil {
+				break
+			}
 			continue
 		case "delete":
 			delete(bound, e.Name)
